@@ -465,7 +465,16 @@ func checkKeepPerms(p *Prog, r *Report) {
 	}
 	isListMode := func(v ssa.Value) bool { return isFieldLoad(stripConv(v), modeF) }
 	n := 0
-	allCalls(gen, func(c ssa.CallInstruction) {
+	var unitCalls []ssa.CallInstruction
+	for _, u := range p.ModGraph().unitFuncs(gen) {
+		allCalls(u, func(c ssa.CallInstruction) { unitCalls = append(unitCalls, c) })
+	}
+	forEach := func(f func(ssa.CallInstruction)) {
+		for _, c := range unitCalls {
+			f(c)
+		}
+	}
+	forEach(func(c ssa.CallInstruction) {
 		if c.Common().StaticCallee() != setPerms || !HasFact(c, true, isSkipTrue) {
 			return
 		}
@@ -666,9 +675,15 @@ func checkFieldBindings(p *Prog, r *Report) {
 	if enc == nil || dec == nil || cd == nil || gen == nil {
 		return
 	}
+	g := p.ModGraph()
+	forUnit := func(fn *ssa.Function, f func(ssa.CallInstruction)) {
+		for _, u := range g.unitFuncs(fn) {
+			allCalls(u, f)
+		}
+	}
 	// sender: values written
 	wrote := map[string]bool{}
-	allCalls(enc, func(c ssa.CallInstruction) {
+	forUnit(enc, func(c ssa.CallInstruction) {
 		n := calleeName(c)
 		if !strings.HasSuffix(n, ".Buffer).WriteInt32") && !strings.HasSuffix(n, ".Buffer).WriteString") {
 			return
@@ -710,7 +725,11 @@ func checkFieldBindings(p *Prog, r *Report) {
 	// receiver: mtime decoding
 	mtF := p.Field(pkgReceiver, "File", "ModTime")
 	okMT := false
-	for _, b := range dec.Blocks {
+	var decBlocks []*ssa.BasicBlock
+	for _, u := range g.unitFuncs(dec) {
+		decBlocks = append(decBlocks, u.Blocks...)
+	}
+	for _, b := range decBlocks {
 		for _, in := range b.Instrs {
 			st, ok := in.(*ssa.Store)
 			if !ok {
@@ -735,7 +754,7 @@ func checkFieldBindings(p *Prog, r *Report) {
 	r.Cond(okMT, rule, "receiver decodes mtime as time.Unix(v, 0)", p.Pos(dec.Pos()), "")
 	// createDevice: Mknodat dev = f.Rdev
 	rdevF := p.Field(pkgReceiver, "File", "Rdev")
-	allCalls(cd, func(c ssa.CallInstruction) {
+	forUnit(cd, func(c ssa.CallInstruction) {
 		if calleeName(c) == pkgUnix+".Mknodat" {
 			r.Cond(isFieldLoad(stripConv(c.Common().Args[3]), rdevF), rule, "createDevice → Mknodat(dev=f.Rdev)", p.Pos(instrPos(c)), "device number must be the received rdev")
 		}
@@ -743,7 +762,7 @@ func checkFieldBindings(p *Prog, r *Report) {
 	// symlink(DestRoot, f.LinkTarget, f.Name)
 	ltF := p.Field(pkgReceiver, "File", "LinkTarget")
 	nmF := p.Field(pkgReceiver, "File", "Name")
-	allCalls(gen, func(c ssa.CallInstruction) {
+	forUnit(gen, func(c ssa.CallInstruction) {
 		if sc := c.Common().StaticCallee(); sc != nil && sc.Name() == "symlink" && pkgPathOfFunc(sc) == pkgReceiver {
 			a := c.Common().Args
 			r.Cond(isFieldLoad(a[1], ltF) && isFieldLoad(a[2], nmF), rule, "recvGenerator → symlink(target=f.LinkTarget, name=f.Name)", p.Pos(instrPos(c)), "")
